@@ -156,6 +156,8 @@ import BGV
 -- C11
 #print axioms BGV.C11_findVertexPredecessors
 #print axioms BGV.C11_entry
+#print axioms BGV.C11_findAllVertexPredecessors
+#print axioms BGV.C11_entry_all
 
 -- C12
 #print axioms BGV.C12_dijkstra_correct
@@ -196,3 +198,4 @@ import BGV
 -- C19
 #print axioms BGV.C19_bfs_scans
 #print axioms BGV.C19_bfs_scans_nodup
+#print axioms BGV.C19_allpred_scans
